@@ -28,6 +28,8 @@ Oracles / keys
                  ranges, ln A = +-10 (and alternating), ln sigma in {-12, 4}, and three combinations, for every kernel that has the parameter kind
   far/<any of the above>   the same oracles on the far-location / unit lattice: x -> xs (x + shift), y -> ys y with shift up to
                  +-1e6 length-scales and xs, ys in 1e-6 .. 1e6, hyper-parameters carried along, reference on the same floats
+  exact/<any of the above>   noise specifications with exact observations: y_err with zeros at some points (positive elsewhere) and the equivalent
+                 diagonal y_cov, all oracles above incl. y_err = s <=> y_cov = diag(s^2)
   history/..     (evaluator gphist) every call history of <= depth actions on ONE regressor over {set_hyperparameters with the
                  caller's array overwritten in place / with a new array} x 3 hyper-parameter vectors and the three prediction
                  calls: results equal those of a freshly built regressor with the current hyper-parameters
@@ -128,10 +130,24 @@ def regime_theta(spec, X, theta, reg):
     return theta
 
 
-def noise_matrix(kind, n):
+# exact (zero-error) observations mixed with positive errors: which entries of the error vector are exactly zero
+ZERO_MASKS = ["even", "first", "all-but-last", "odd", "last"]
+NOISES_EXACT = ["y_err_zeros", "y_cov_diag_zeros"]
+NOISE_FORM = {"none": "none", "y_err": "y_err", "y_cov_diag": "y_cov", "y_cov_full": "y_cov", "y_err_zeros": "y_err", "y_cov_diag_zeros": "y_cov"}
+
+
+def zero_mask(which, n):
+    i = np.arange(n)
+    return {"even": i % 2 == 0, "odd": i % 2 == 1, "first": i == 0, "last": i == n - 1, "all-but-last": i < n - 1}[which]
+
+
+def noise_matrix(kind, n, zeros="even"):
     s = 0.05 + 0.1 * ((np.arange(n) * 3) % 4)
     if kind == "none":
         return None, np.zeros((n, n))
+    if kind in NOISES_EXACT:
+        s = np.where(zero_mask(zeros, n), 0.0, s)
+        return s, np.diag(s**2)
     if kind in ("y_err", "y_cov_diag"):
         return s, np.diag(s**2)
     i = np.arange(n)
@@ -222,8 +238,10 @@ def ev_gp(case):
     m = Q.shape[0]
     fails, tags, slack, skipped, nev = [], set(), {}, {}, 0
     seen = set()
-    kpre = "far/" if far else ("regime/" if reg else "")
-    fardet = {"far": far} if far else ({"regime": reg} if reg else {})
+    zeros = case.get("zeros")
+    noises = NOISES_EXACT if zeros else NOISES
+    kpre = "exact/" if zeros else ("far/" if far else ("regime/" if reg else ""))
+    fardet = {"zeros": zeros} if zeros else ({"far": far} if far else ({"regime": reg} if reg else {}))
     # rounding of the documented formulas in doubles: (1 + Z/alpha)^-alpha has relative condition alpha w.r.t. the rounding of
     # 1 + Z/alpha; exp(-Z), the other RQ factors and the logistic weights f, 1 - f carry a few eps absolutely (relative to A^2)
     pinfo = R.param_info(spec, n, d)
@@ -316,8 +334,8 @@ def ev_gp(case):
         ]
 
     store = {}
-    for noise in NOISES:
-        s_err, S = noise_matrix(noise, n)
+    for noise in noises:
+        s_err, S = noise_matrix(noise, n, zeros or "even")
         if far:
             s_err, S = (None if s_err is None else s_err * ys), S * ys**2
         A = Abase + mpmat(S)
@@ -390,9 +408,9 @@ def ev_gp(case):
                     Sp = S[np.ix_(perm, perm)]
                     sp_err = None if s_err is None else s_err[perm]
                 kw = {}
-                if noise_form == "y_err":
+                if NOISE_FORM[noise_form] == "y_err":
                     kw["y_err"] = sp_err.copy()
-                elif noise_form in ("y_cov_diag", "y_cov_full"):
+                elif NOISE_FORM[noise_form] == "y_cov":
                     kw["y_cov"] = np.ascontiguousarray(Sp.copy())
                 xin = Xp.copy()
                 yin = yp.copy()
@@ -406,7 +424,7 @@ def ev_gp(case):
             combo = f"noise={noise},mean={mean_name}"
             try:
                 with lib("GpRegressor()"):
-                    gp = build(xform=(pattern + NOISES.index(noise)) % 3)
+                    gp = build(xform=(pattern + noises.index(noise)) % 3)
                 with lib("__call__"):
                     mu_c, sd_c = gp(Q.copy())
                 with lib("build_posterior"):
@@ -447,6 +465,9 @@ def ev_gp(case):
                 tags.add(f"far:cond-decade={int(np.floor(np.log10(cond)))},shift={shift:g}")
             elif reg:
                 tags.add(f"regime:{name},d={d},{regime_name(reg)},{noise},{mean_name}")
+            elif zeros:
+                tags.add(f"exact:{name},d={d},n={n},{case['design']},zero-errors={zeros},{noise},{mean_name}")
+                tags.add(f"exact:cond-decade={int(np.floor(np.log10(cond)))}")
             else:
                 tags.add(f"{name},d={d},n={n},{case['design']},{noise},{mean_name}")
                 tags.add(f"cond-decade={int(np.floor(np.log10(cond)))}")
@@ -505,15 +526,16 @@ def ev_gp(case):
                         break
                 tags.add(f"perms,n={n}")
             # y_err  <=>  diagonal y_cov
-            if noise == "y_cov_diag" and ("y_err", mean_name) in store:
-                o = store[("y_err", mean_name)]
+            partner = {"y_cov_diag": "y_err", "y_cov_diag_zeros": "y_err_zeros"}.get(noise)
+            if partner and (partner, mean_name) in store:
+                o = store[(partner, mean_name)]
                 e_mu = np.maximum(np.abs(o[0] - mu_c), np.abs(o[2] - mu_p))
                 e_v = np.maximum(np.abs(o[1] - var_c), np.abs(np.diag(o[3]) - np.diag(cov_p)))
                 e_c = np.abs(o[3] - cov_p)
                 r = max(sl("noise/mean", e_mu, tmu), sl("noise/var", e_v, 2 * tol_var), sl("noise/cov", e_c, 2 * tol_cov))
                 if r > 1:
-                    add("noise/y_err-vs-diagonal-y_cov/differ", f"{name} mean={mean_name}: y_err=s and y_cov=diag(s^2) give different predictions (ratio {r:.3g})", mean=mean_name)
-                tags.add("y_err==diag(y_cov)")
+                    add("noise/y_err-vs-diagonal-y_cov/differ", f"{name} mean={mean_name}: y_err=s and y_cov=diag(s^2) give different predictions (ratio {r:.3g}; s = {s_err.tolist()})", mean=mean_name)
+                tags.add("y_err==diag(y_cov)" + (",some-errors-zero" if zeros else ""))
     return {
         "fails": fails[:40],
         "n": nev,
@@ -766,6 +788,16 @@ def run(ck):
             for pat in ([(ki + j + seed) % 9] if quick else [(ki + j + seed) % 9, (ki + j + seed + 4) % 9, (ki + j + seed + 8) % 9]):
                 ncases.append({"spec": spec, "n": n, "d": d, "design": des, "pattern": pat, "seed": seed})
     ck.run_cases("gp", ncases, chunk=1)
+    # ---- exact (zero-error) observations mixed with positive errors: y_err with zeros and the equivalent diagonal y_cov
+    ekern = KERNELS + NOISE_POS_KERNELS[:3]
+    ecases = []
+    for ki, spec in enumerate(ekern):
+        sel = [pmenu[(ki + seed + 3 * j) % len(pmenu)] for j in range(2 if quick else len(pmenu))]
+        for j, (n, d, des) in enumerate(sel):
+            for zi in ([(ki + j + seed) % len(ZERO_MASKS)] if quick else range(len(ZERO_MASKS))):
+                ecases.append({"spec": spec, "n": n, "d": d, "design": des, "pattern": (ki + 2 * j + zi + seed) % 9, "seed": seed, "zeros": ZERO_MASKS[zi], "perms": n <= 4})
+    ck.run_cases("gp", ecases, chunk=1)
+    ck.extra["exact_observations"] = {"zero_masks": ZERO_MASKS, "kernels": [R.spec_name(s) for s in ekern], "cases": len(ecases)}
     # ---- hyper-parameter regimes outside the default bounds, for every kernel that has the parameter kind
     rkern = KERNELS + (NOISE_POS_KERNELS[:6] if quick else NOISE_POS_KERNELS)
     rcases = []
@@ -821,6 +853,9 @@ def run(ck):
         "and around a change-point, each on a d = 1 and a d >= 2 point set (thorough: 8 point sets x 3 patterns) through all oracles above. "
         "Kernel-level oracle on every gp case (keys crosscov/..): kernel(q, x, theta) and kernel(q, q, theta) of the regressor's kernel object equal entry by entry the documented "
         "formula that K_xx follows, and the K_qx row of a query point that is a training point equals the build_covariance row off the diagonal. "
+        "Exact-observation lattice (keys exact/..): {y_err with exact zeros, the equivalent diagonal y_cov} x {zero errors at the even / first / all but the last / odd / last training point, "
+        "the others positive} x {14 kernels} x {Constant, Linear, Quadratic mean} on two rotating point sets (thorough: 8 point sets x 5 zero masks) through all oracles above (closed form with "
+        "S = diag(s^2) exactly as given, y_err = s <=> y_cov = diag(s^2), orders of the training set carry their errors along); distinct by (kernel, d, n, design, zero mask, noise form, mean). "
         "Regime lattice (keys regime/..): {ln alpha = -6, -3, 8, 9.25, 10, 12; length-scale = 1e-3, 1e-2, 30, 1e3 data ranges; ln A = -10, +10, alternating; ln sigma = -12, 4; "
         "(alpha 12, ls 30), (alpha 10, A -10), (alpha -6, ls 1e-2, A alternating)} x {every kernel of the lists that has the parameter kind} on a rotating point set (thorough: three), "
         "all outside the default optimisation bounds; distinct by (kernel, d, regime, noise, mean). "
@@ -846,6 +881,8 @@ def run(ck):
     ck.assume("far-location lattice: locations up to 1e6 mid-level length-scales from the origin (the per-dimension length-scales of the lattice are 0.3 .. 3.7 times that) and units "
               "1e-6 .. 1e6 for x and y with the hyper-parameters expressed in the same units; rounding of the mean function is bounded term by term with |x| + |centroid| for x - centroid")
     ck.assume("continuous inputs are represented by the listed deterministic designs (n <= 8, d <= 3); designs with cond(K_xx+S) > 1e10 are skipped and counted")
+    ck.assume("exact-observation lattice: an error of exactly zero means an exactly known observation (S_ii = 0, as the closed form says); only error vectors with at least one zero and one "
+              "positive entry are enumerated, and designs whose K_xx + S then has cond > 1e10 (near-duplicate exact points under a noise-free kernel) are skipped and counted")
     ck.assume("y_cov is given as an ndarray (documented form); a single training point is rejected by the constructor and is outside the domain")
     ck.assume("the size of the diagonal jitter of K_xx (documented as 'small values added to the diagonal') is read from build_covariance after checking it lies in [0, 1e-10*K_ii]")
     ck.assume("noise kernels (WhiteNoise, HeteroscedasticNoise) act on the data index: they contribute to K_xx only, not to K_qx / K_qq (prediction of the latent function)")
